@@ -1270,6 +1270,9 @@ func (c *Client) readSlices() (message, topic []byte, err error) {
 				c.bigMessage = nil
 				c.peek = nil
 				err := c.discard(payloadSize)
+				if err == nil {
+					err = c.ackDupe()
+				}
 				if err != nil {
 					c.toOffline()
 					return nil, nil, err
@@ -1303,7 +1306,7 @@ func (c *Client) readSlices() (message, topic []byte, err error) {
 				return message, topic, nil
 			}
 			if err == errDupe {
-				err = nil // can just skip
+				err = c.ackDupe() // can just skip
 			}
 		case typePUBACK:
 			err = c.onPUBACK()
@@ -1338,6 +1341,20 @@ func (c *Client) readSlices() (message, topic []byte, err error) {
 		// no errors guaranteed
 		c.bufr.Discard(len(c.peek))
 	}
+}
+
+// AckDupe confirms a duplicate PUBLISH exactly-once right away, as ownership
+// was taken already. A failed submission stays pending for the next ReadSlices.
+func (c *Client) ackDupe() error {
+	if len(c.pendingAck) == 0 {
+		return nil
+	}
+	err := c.writeNoWait(c.pendingAck)
+	if err != nil {
+		return err // keeps pendingAck to retry
+	}
+	c.pendingAck = c.pendingAck[:0]
+	return nil
 }
 
 // BigMessage signals reception beyond the read buffer capacity.
@@ -1419,6 +1436,11 @@ func (c *Client) onPUBLISH(head byte) (message, topic []byte, err error) {
 			return nil, nil, err
 		}
 		if bytes != nil {
+			// confirm again; the previous PUBREC may have been lost
+			if len(c.pendingAck) != 0 {
+				return nil, nil, fmt.Errorf("mqtt: internal error: ack %#x pending during PUBLISH exactly once reception", c.pendingAck)
+			}
+			c.pendingAck = append(c.pendingAck, typePUBREC<<4, 2, byte(packetID>>8), byte(packetID))
 			return nil, nil, errDupe
 		}
 
